@@ -188,7 +188,7 @@ fn low(b: &BigUint, l: usize) -> BigUint {
     b & mask(64 * l as u64)
 }
 
-fn ops(l: usize, r: usize, ba: &BigUint, bb: &BigUint, cin: u64, b01: u64) -> (Op<'static>, Op<'static>, Op<'static>, Op<'static>) {
+pub(crate) fn ops(l: usize, r: usize, ba: &BigUint, bb: &BigUint, cin: u64, b01: u64) -> (Op<'static>, Op<'static>, Op<'static>, Op<'static>) {
     let lo = low(bb, l);
     let rhs_high = lo != *bb;
     let add = Op { what: "+", l, r, truth: ib(ba) + ib(bb), trunc: ib(ba) + ib(&lo), rhs_high };
@@ -198,7 +198,7 @@ fn ops(l: usize, r: usize, ba: &BigUint, bb: &BigUint, cin: u64, b01: u64) -> (O
     (add, sub, addc, subb)
 }
 
-fn label_widths(c: &mut Case, l: usize, r: usize, rhs_high: bool) {
+pub(crate) fn label_widths(c: &mut Case, l: usize, r: usize, rhs_high: bool) {
     if r > l {
         c.label("rhs wider than receiver");
         c.label(if rhs_high { "rhs wider: non-zero high limbs" } else { "rhs wider: value fits the receiver" });
